@@ -119,6 +119,12 @@ def stream_init(tier, keepalive_oracle=False):
                     except p.RemotingException as e:
                         reply = None
                         ans = "err " + (M if ("parsing %s request" % M) in str(e) else "UNNAMED")
+                    except Exception as e:
+                        # nothing but the protocol error may escape the init handling: the reader thread would die
+                        reply = None
+                        ans = "err OTHER:" + type(e).__name__
+                        res.violation("init-raises:" + type(e).__name__, "the init request makes _on_%s raise %r (local parameters %r)" % (M.lower(), e, local),
+                                      {"kind": kind, "version": v_eff, "tokens": toks, "local": local})
                 finally:
                     srv._executor.shutdown(wait=False)
                 inits = [x for x in log if x[0] == "initialize"]
